@@ -249,11 +249,12 @@ def r08_3_order_by_scope(ctx: Ctx, rule: str = "R08.3") -> None:
         ps = [p for p in f.params if p != "self"]
         op, sel = ps[0], ps[1]
         for o in outs:
-            if o.kind not in ("NEST_HOIST", "PUSH_INTO_CHAIN"):
+            repeated = o.kind == "NEST" and o.detail.get("sort") == f"{sel}.sort"  # the sort is repeated on the outer query
+            if o.kind not in ("NEST_HOIST", "PUSH_INTO_CHAIN") and not repeated:
                 continue
             seen += 1
             inst = f"{c.name}:{o.kind}"
-            scope = (f"{sel}.columns",) if o.kind == "NEST_HOIST" else (f"{op}.columns", f"{op}.columns_required")
+            scope = (f"{sel}.columns",) if o.kind in ("NEST_HOIST", "NEST") else (f"{op}.columns", f"{op}.columns_required")
             req = Required(
                 "sort-columns-in-scope",
                 "LE",
@@ -282,6 +283,50 @@ def r08_3_order_by_scope(ctx: Ctx, rule: str = "R08.3") -> None:
             )
     if seen == 0:
         raise AnalysisError("no placement keeps a sort over a reduced column set: the placement logic changed shape")
+
+
+def r_order_survives(ctx: Ctx, rule: str) -> None:
+    """A sort followed only by slices, projections and deduplications must still order the outermost query."""
+    run = ctx.run
+    run.rule(
+        rule,
+        "order survives order-preserving operations: a Projection, Deduplication or Slice applied to a Select that has a "
+        "sort leaves that sort on the outermost query level (same SELECT, or nested with the sort repeated/hoisted outside) "
+        "or is refused; an ORDER BY left only in a subquery does not order the rows the database returns",
+        expected_min=40,
+    )
+    for f, c, state, outs, raises in placements(ctx):
+        if c.name not in ("Projection", "Deduplication", "Slice") or not state["has_sort"]:
+            continue
+        ps = [p for p in f.params if p != "self"]
+        op, sel = ps[0], ps[1]
+        inst = f"{c.name}@{_state_label(state)}"
+        problem = None
+        bad_o = None
+        for o in outs:
+            if o.kind in ("NOOP", "PUSH_INTO_CHAIN", "INNER"):
+                continue
+            if o.kind == "SLOT":
+                if "sort" in o.detail and o.detail["sort"] not in (f"{sel}.sort",):
+                    problem, bad_o = f"{o!r} replaces the Select's sort", o
+                continue
+            if o.kind == "NEST_HOIST":
+                if o.detail.get("sort") != f"{sel}.sort":
+                    problem, bad_o = f"{o!r}: the sort is removed from the subquery but not re-attached outside", o
+                continue
+            if o.kind == "NEST":
+                if o.detail.get("sort") != f"{sel}.sort":
+                    problem, bad_o = (
+                        f"{o!r}: the sorted Select becomes a subquery and the new outer query has no ORDER BY - `sort, slice, {c.name.lower()}` "
+                        "is returned by the database in no particular order (and a later slice cuts an unordered result)",
+                        o,
+                    )
+                continue
+            problem, bad_o = f"unexpected placement {o!r}", o
+        if problem:
+            run.fail(rule, inst, problem, fi=f, node=bad_o.path.node, details=describe(bad_o.path), facts={"state": state})
+        else:
+            run.ok(rule, inst, {"outcomes": [repr(o) for o in outs], "refusals": len(raises)})
 
 
 def r08_2_compound_guard(ctx: Ctx, rule: str = "R08.2") -> None:
